@@ -20,7 +20,7 @@ Definition lspec_step (c : lcfg) (m : amap) (o : lop) : amap * option (result (l
   let bs := lc_bounds c in
   match o with
   | LPlace a p =>
-      if negb (dim_ok bs p) || mem a (akeys m) then (m, None)
+      if negb (dim_ok bs p) then (m, None)
       else match torus_adj c p with
            | Err k => (m, Some (Err k))
            | Ok p' => (aset a p' m, Some (Ok []))
@@ -46,24 +46,30 @@ Definition lspec_step (c : lcfg) (m : amap) (o : lop) : amap * option (result (l
   | LHeading p q =>
       if negb (dim_ok bs p && dim_ok bs q) then (m, None)
       else (m, Some (Ok (diffv (lc_torus c) bs p q)))
+  | LAgentRemove a => (m, Some (Ok []))      (* Agent.remove(): the space does not change *)
   end.
 
-Definition lspec_view (m : amap) : list Z :=
+(* the specification state: the map, and (independently of it) who has been deregistered from the model *)
+Definition lspec_view (m : amap) (g : list Z) : list Z :=
   Z.of_nat (length m)
-  :: obs_rows_in_order (map (fun ap : Z * point => fst ap :: snd ap) m) ++ SEP :: zsort (akeys m).
+  :: obs_rows_in_order (map (fun ap : Z * point => fst ap :: snd ap) m) ++ SEP :: zsort (akeys m)
+  ++ SEP :: zsort g.
 
-Definition lspec_obs (m : amap) (r : option (result (list Z))) : list Z :=
+Definition lspec_obs (m : amap) (g : list Z) (r : option (result (list Z))) : list Z :=
   match r with
   | None => obs_noop
-  | Some (Err k) => obs_err k ++ SEP :: lspec_view m
-  | Some (Ok v) => v ++ SEP :: lspec_view m
+  | Some (Err k) => obs_err k ++ SEP :: lspec_view m g
+  | Some (Ok v) => v ++ SEP :: lspec_view m g
   end.
 
-Fixpoint lspec_run (c : lcfg) (m : amap) (ops : list lop) : list (list Z) :=
+Fixpoint lspec_run_g (c : lcfg) (m : amap) (g : list Z) (ops : list lop) : list (list Z) :=
   match ops with
   | [] => []
-  | o :: t => let '(m', r) := lspec_step c m o in lspec_obs m' r :: lspec_run c m' t
+  | o :: t => let '(m', r) := lspec_step c m o in
+              let g' := gone_step g o in
+              lspec_obs m' g' r :: lspec_run_g c m' g' t
   end.
+Definition lspec_run (c : lcfg) (m : amap) (ops : list lop) : list (list Z) := lspec_run_g c m [] ops.
 
 Fixpoint lspec_final (c : lcfg) (m : amap) (ops : list lop) : amap :=
   match ops with
@@ -141,18 +147,20 @@ Lemma lstep_sim c s o : LInv s ->
   lspec_step c (l_pos s) o = (l_pos (fst (lstep c s o)), snd (lstep c s o)).
 Proof.
   intros Hinv. pose proof Hinv as [H1 [H2 H3]].
-  destruct o as [a p|a p|a|q r ic|p q|p q]; cbn [lstep lspec_step].
-  - (* LPlace *)
-    rewrite (is_member_keys s a Hinv), (mem_keys_aget (l_pos s) a).
+  destruct o as [a p|a p|a|q r ic|p q|p q|a]; cbn [lstep lspec_step].
+  - (* LPlace: of a new agent, or again of an agent that is already placed *)
+    destruct (negb (dim_ok (lc_bounds c) p)); cbn [fst snd]; [auto|].
+    destruct (torus_adj c p) as [p'|k]; cbn [fst snd l_pos]; [|auto].
+    split; [|reflexivity].
+    unfold LInv, cache_coherent. cbn [l_a2i l_pos l_points l_i2a].
     destruct (aget a (l_pos s)) as [v|] eqn:Ea.
-    + rewrite !orb_true_r. cbn [fst snd]. auto.
-    + rewrite !orb_false_r.
-      destruct (negb (dim_ok (lc_bounds c) p)); cbn [fst snd]; [auto|].
-      destruct (torus_adj c p) as [p'|k]; cbn [fst snd l_pos]; [|auto].
-      split; [|reflexivity].
-      assert (aget a (l_a2i s) = None) as Ea2.
+    + (* already placed: both dictionaries keep their key order *)
+      assert (aget a (l_pos s) <> None) as Hp by congruence.
+      assert (aget a (l_a2i s) <> None) as Ha.
+      { intros Hn. apply aget_None_keys in Hn. rewrite H1 in Hn. apply aget_None_keys in Hn. congruence. }
+      rewrite (akeys_aset_old a None (l_a2i s) Ha), (akeys_aset_old a p' (l_pos s) Hp). auto.
+    + assert (aget a (l_a2i s) = None) as Ea2.
       { apply aget_None_keys. rewrite H1. apply aget_None_keys. exact Ea. }
-      unfold LInv, cache_coherent. cbn [l_a2i l_pos l_points l_i2a].
       rewrite (akeys_aset_new a None (l_a2i s) Ea2), (akeys_aset_new a p' (l_pos s) Ea).
       unfold akeys in *. rewrite !map_app, H1. cbn [map fst]. split; [reflexivity|]. split; [|exact I].
       apply NoDup_snoc; [exact H2|]. apply aget_None_keys in Ea. exact Ea.
@@ -206,9 +214,26 @@ Proof.
            rewrite (map_pos_or_none (l_pos s) s eq_refl H2). reflexivity.
   - destruct (negb _); cbn [fst snd]; auto.
   - destruct (negb _); cbn [fst snd]; auto.
+  - cbn [fst snd l_pos]. split; [|reflexivity]. exact Hinv.
 Qed.
 
-Lemma lview_abs s : LInv s -> l_view s = lspec_view (l_pos s).
+(* who has left the MODEL evolves independently of the space *)
+Lemma lstep_gone c s o : l_gone (fst (lstep c s o)) = gone_step (l_gone s) o.
+Proof.
+  destruct o as [a p|a p|a|q r ic|p q|p q|a]; cbn [lstep gone_step].
+  - destruct (negb _); [reflexivity|]. destruct (torus_adj c p); reflexivity.
+  - destruct (_ || _); [reflexivity|]. destruct (torus_adj c p); [|reflexivity].
+    destruct (l_points s); [|reflexivity]. destruct (aget a (l_a2i s)) as [[idx|]|]; try reflexivity.
+    destruct (Nat.ltb _ _); reflexivity.
+  - destruct (negb _); reflexivity.
+  - destruct (negb _); [reflexivity|]. destruct (l_a2i s); [reflexivity|].
+    destruct (l_points s); reflexivity.
+  - destruct (negb _); reflexivity.
+  - destruct (negb _); reflexivity.
+  - reflexivity.
+Qed.
+
+Lemma lview_abs s : LInv s -> l_view s = lspec_view (l_pos s) (l_gone s).
 Proof.
   intros [H1 [H2 _]]. unfold l_view, lspec_view. rewrite H1.
   assert (length (l_a2i s) = length (l_pos s)) as ->.
@@ -216,12 +241,12 @@ Proof.
   rewrite rows_of_map by exact H2. reflexivity.
 Qed.
 
-Lemma l_run_refines c ops : forall s, LInv s -> l_run c s ops = lspec_run c (l_pos s) ops.
+Lemma l_run_refines c ops : forall s, LInv s -> l_run c s ops = lspec_run_g c (l_pos s) (l_gone s) ops.
 Proof.
   induction ops as [|o t IH]; intros s Hinv; [reflexivity|].
-  cbn [l_run lspec_run]. destruct (lstep_sim c s o Hinv) as [Hinv' Hsim].
+  cbn [l_run lspec_run_g]. destruct (lstep_sim c s o Hinv) as [Hinv' Hsim]. pose proof (lstep_gone c s o) as Hg.
   rewrite Hsim. destruct (lstep c s o) as [s' r]. cbn [fst snd] in *.
-  rewrite IH by exact Hinv'. f_equal.
+  cbv zeta. rewrite <- Hg. rewrite IH by exact Hinv'. f_equal.
   unfold l_obs, lspec_obs. rewrite (lview_abs s' Hinv'). reflexivity.
 Qed.
 
@@ -245,8 +270,8 @@ Proof. apply l_final_refines. exact l_init_inv. Qed.
 Definition l_track (c : lcfg) (a : Z) (cur : option point) (o : lop) : option point :=
   let bs := lc_bounds c in
   match o with
-  | LPlace b p =>
-      if (b =? a) && dim_ok bs p && match cur with None => true | Some _ => false end
+  | LPlace b p =>                      (* also of an agent that is already placed: it is an assignment *)
+      if (b =? a) && dim_ok bs p
       then match torus_adj c p with Ok p' => Some p' | Err _ => cur end
       else cur
   | LMove b p =>
@@ -260,15 +285,13 @@ Definition l_track (c : lcfg) (a : Z) (cur : option point) (o : lop) : option po
 Lemma lspec_step_track c m o a :
   aget a (fst (lspec_step c m o)) = l_track c a (aget a m) o.
 Proof.
-  destruct o as [b p|b p|b|q r ic|p q|p q]; cbn [lspec_step l_track fst].
-  - rewrite (mem_keys_aget m b).
-    destruct (Z.eq_dec b a) as [->|Hne].
+  destruct o as [b p|b p|b|q r ic|p q|p q|b]; cbn [lspec_step l_track fst]; try reflexivity.
+  - destruct (Z.eq_dec b a) as [->|Hne].
     + rewrite Z.eqb_refl. cbn [andb].
-      destruct (dim_ok (lc_bounds c) p); cbn [negb orb andb]; [|reflexivity].
-      destruct (aget a m) as [v|] eqn:Ea; cbn [fst]; [exact Ea|].
-      destruct (torus_adj c p); cbn [fst]; [apply aget_aset_same|exact Ea].
+      destruct (dim_ok (lc_bounds c) p); cbn [negb]; [|reflexivity].
+      destruct (torus_adj c p); cbn [fst]; [apply aget_aset_same|reflexivity].
     + assert (b =? a = false) as -> by (apply Z.eqb_neq; exact Hne). cbn [andb].
-      destruct (negb (dim_ok (lc_bounds c) p) || match aget b m with Some _ => true | None => false end); [reflexivity|].
+      destruct (negb (dim_ok (lc_bounds c) p)); [reflexivity|].
       destruct (torus_adj c p); [|reflexivity]. cbn [fst]. apply aget_aset_other. congruence.
   - rewrite (mem_keys_aget m b).
     destruct (Z.eq_dec b a) as [->|Hne].
@@ -344,8 +367,8 @@ Theorem legacy_atomic c ops o s' e :
 Proof.
   pose proof (legacy_cache_coherent c ops) as Hinv. revert Hinv.
   generalize (l_final c l_init ops). intros s Hinv. pose proof Hinv as [H1 [H2 H3]].
-  destruct o as [a p|a p|a|q r ic|p q|p q]; cbn [lstep].
-  - destruct (_ || _ || _); [intros H; inversion H|].
+  destruct o as [a p|a p|a|q r ic|p q|p q|a]; cbn [lstep]; try (intros H; inversion H; fail).
+  - destruct (negb (dim_ok _ _)); [intros H; inversion H|].
     unfold torus_adj. destruct (negb (oob_half _ p)); [intros H; inversion H|].
     destruct (negb (lc_torus c)); intros H; inversion H. auto.
   - rewrite (is_member_keys s a Hinv).
@@ -383,7 +406,7 @@ Lemma l_track_in_bounds c a cur o :
   forall p, l_track c a cur o = Some p -> oob_half (lc_bounds c) p = false.
 Proof.
   intros Hb Hcur p. destruct o; cbn [l_track]; try (apply Hcur).
-  - destruct (_ && _ && _); [|apply Hcur].
+  - destruct (_ && _); [|apply Hcur].
     destruct (torus_adj c p0) eqn:En; [|apply Hcur]. intros H. inversion H. subst.
     eapply torus_adj_in_bounds; eassumption.
   - destruct (_ && _ && _); [|apply Hcur].
@@ -412,7 +435,7 @@ Theorem legacy_bounded_reject c s a p :
   (lstep c s (LMove a p) = (s, None) \/ lstep c s (LMove a p) = (s, Some (Err E_OOB))).
 Proof.
   intros Ht Ho. cbn [lstep]. unfold torus_adj. rewrite Ho, Ht. cbn [negb]. split.
-  - destruct (_ || _ || _); [left|right]; reflexivity.
+  - destruct (negb (dim_ok _ _)); [left|right]; reflexivity.
   - destruct (_ || _); [left|right]; reflexivity.
 Qed.
 
@@ -490,7 +513,7 @@ Proof. destruct c as [cfg ops|cfg ops]; cbn [run_case spec_run_case]; [apply leg
 Definition l_order_step (c : lcfg) (l : list Z) (o : lop) : list Z :=
   match o with
   | LPlace a p =>
-      if negb (dim_ok (lc_bounds c) p) || mem a l then l
+      if negb (dim_ok (lc_bounds c) p) || mem a l then l        (* re-placing a placed agent keeps its place *)
       else match torus_adj c p with Ok _ => l ++ [a] | Err _ => l end
   | LRemove a => filter (fun b => negb (b =? a)) l
   | _ => l
@@ -499,12 +522,13 @@ Definition l_order_step (c : lcfg) (l : list Z) (o : lop) : list Z :=
 Lemma lspec_keys_step c (m : amap) o :
   akeys (fst (lspec_step c m o)) = l_order_step c (akeys m) o.
 Proof.
-  destruct o as [a p|a p|a|q r ic|p q|p q]; cbn [lspec_step l_order_step fst].
-  - destruct (negb (dim_ok (lc_bounds c) p) || mem a (akeys m)) eqn:Eg; [reflexivity|].
-    apply orb_false_iff in Eg. destruct Eg as [_ Em].
-    destruct (torus_adj c p); [|reflexivity]. cbn [fst].
-    rewrite akeys_aset_new; [unfold akeys; rewrite map_app; reflexivity|].
-    apply aget_None_keys. rewrite <- mem_In. congruence.
+  destruct o as [a p|a p|a|q r ic|p q|p q|a]; cbn [lspec_step l_order_step fst]; try reflexivity.
+  - destruct (negb (dim_ok (lc_bounds c) p)); cbn [orb]; [reflexivity|].
+    destruct (torus_adj c p); cbn [fst]; [|destruct (mem a (akeys m)); reflexivity].
+    destruct (mem a (akeys m)) eqn:Em.
+    + apply akeys_aset_old. apply mem_In in Em. intros Hn. apply aget_None_keys in Hn. contradiction.
+    + rewrite akeys_aset_new; [unfold akeys; rewrite map_app; reflexivity|].
+      apply aget_None_keys. rewrite <- mem_In. congruence.
   - destruct (_ || _) eqn:Eg; [reflexivity|].
     apply orb_false_iff in Eg. destruct Eg as [_ Em]. apply negb_false_iff in Em. apply mem_In in Em.
     destruct (torus_adj c p); [|reflexivity]. cbn [fst]. apply akeys_aset_old.
@@ -573,4 +597,60 @@ Proof.
       apply IH in H2; [|lia|lia]. subst q. assert (x = y) by nia. subst. reflexivity.
     + intros H. inversion H. subst. rewrite Z.sub_diag. cbn [Z.abs Z.mul Z.add].
       apply IH; [lia|lia|reflexivity].
+Qed.
+
+(* ================================================================= round 4: documented boundaries *)
+(* Agent.remove() of a plain mesa.Agent that sits in a LEGACY space: the agent leaves the MODEL only.  Every field of the
+   space is unchanged - the agent keeps its entry in _agent_to_index, its pos, its cached row - so space.agents still
+   lists it and every space operation answers exactly as before.  (The property's "placed and not removed" means removed
+   FROM THE SPACE by remove_agent; Mesa's docstring of Agent.remove tells users to extend it for that.) *)
+Theorem legacy_agent_remove_leaves_space_entry c ops a :
+  let s := l_final c l_init ops in
+  let s' := fst (lstep c s (LAgentRemove a)) in
+  snd (lstep c s (LAgentRemove a)) = Some (Ok []) /\
+  l_a2i s' = l_a2i s /\ l_i2a s' = l_i2a s /\ l_points s' = l_points s /\ l_pos s' = l_pos s /\
+  In a (l_gone s') /\
+  (In a (akeys (l_a2i s)) -> In a (akeys (l_a2i s'))) /\
+  (forall o, snd (lstep c s' o) = snd (lstep c s o) /\ l_pos (fst (lstep c s' o)) = l_pos (fst (lstep c s o)) /\
+             akeys (l_a2i (fst (lstep c s' o))) = akeys (l_a2i (fst (lstep c s o)))).
+Proof.
+  cbn zeta. pose proof (legacy_cache_coherent c ops) as Hinv. set (s := l_final c l_init ops) in *.
+  set (s' := fst (lstep c s (LAgentRemove a))).
+  assert (Hinv' : LInv s') by exact Hinv.
+  assert (Hpos : l_pos s' = l_pos s) by reflexivity.
+  split; [reflexivity|]. split; [reflexivity|]. split; [reflexivity|]. split; [reflexivity|]. split; [reflexivity|].
+  split.
+  { unfold s'. cbn [lstep fst l_gone gone_step]. destruct (mem a (l_gone s)) eqn:E; [apply mem_In; exact E|left; reflexivity]. }
+  split; [intros H; exact H|].
+  intros o. destruct (lstep_sim c s o Hinv) as [[K1 _] H1]. destruct (lstep_sim c s' o Hinv') as [[K2 _] H2].
+  rewrite Hpos, H1 in H2.
+  pose proof (f_equal fst H2) as E1. pose proof (f_equal snd H2) as E2. cbn [fst snd] in E1, E2.
+  split; [symmetry; exact E2|]. split; [symmetry; exact E1|]. rewrite K1, K2, E1. reflexivity.
+Qed.
+
+(* place_agent of an agent that is ALREADY placed (the decorator only warns): it is a move - same new pos, same answer,
+   same place in space.agents, no second entry - that additionally drops the cache instead of patching it *)
+Theorem legacy_replace_is_move c ops a p :
+  let s := l_final c l_init ops in
+  In a (akeys (l_a2i s)) -> dim_ok (lc_bounds c) p = true ->
+  snd (lstep c s (LPlace a p)) = snd (lstep c s (LMove a p)) /\
+  l_pos (fst (lstep c s (LPlace a p))) = l_pos (fst (lstep c s (LMove a p))) /\
+  akeys (l_a2i (fst (lstep c s (LPlace a p)))) = akeys (l_a2i s) /\
+  NoDup (akeys (l_a2i (fst (lstep c s (LPlace a p))))) /\
+  (snd (lstep c s (LPlace a p)) = Some (Ok []) -> l_points (fst (lstep c s (LPlace a p))) = None).
+Proof.
+  cbn zeta. intros Hin Hd. pose proof (legacy_cache_coherent c ops) as Hinv.
+  set (s := l_final c l_init ops) in *. pose proof Hinv as [H1 [H2 _]].
+  destruct (lstep_sim c s (LPlace a p) Hinv) as [[P1 [P2 _]] Hp].
+  destruct (lstep_sim c s (LMove a p) Hinv) as [_ Hm].
+  assert (Hsame : lspec_step c (l_pos s) (LPlace a p) = lspec_step c (l_pos s) (LMove a p)).
+  { cbn [lspec_step]. rewrite Hd. rewrite <- H1. apply mem_In in Hin. rewrite Hin. reflexivity. }
+  rewrite Hp, Hm in Hsame.
+  pose proof (f_equal fst Hsame) as E1. pose proof (f_equal snd Hsame) as E2. cbn [fst snd] in E1, E2.
+  split; [exact E2|]. split; [exact E1|].
+  assert (Hk : akeys (l_pos (fst (lstep c s (LPlace a p)))) = akeys (l_pos s)).
+  { pose proof (lspec_keys_step c (l_pos s) (LPlace a p)) as Hks. rewrite Hp in Hks. cbn [fst] in Hks.
+    rewrite Hks. cbn [l_order_step]. rewrite <- H1. apply mem_In in Hin. rewrite Hin, orb_true_r. reflexivity. }
+  split; [rewrite P1, Hk; symmetry; exact H1|]. split; [rewrite P1; exact P2|].
+  cbn [lstep]. rewrite Hd. cbn [negb]. destruct (torus_adj c p); cbn [fst snd l_points]; [reflexivity|discriminate].
 Qed.
